@@ -533,11 +533,22 @@ def warm_up():
         pass
 
 
-def replay_all(tasks, nproc=12):
+def free_cores(lo=4, hi=12):
+    """How many processes to use: on a machine that is already saturated more processes only add
+    contention (measured: 14 processes slower than 4 at load 50 on 16 cores)."""
+    try:
+        free = (os.cpu_count() or 8) - os.getloadavg()[0]
+    except OSError:
+        free = 8
+    return int(max(lo, min(hi, free)))
+
+
+def replay_all(tasks, nproc=None):
     """tasks: [(oid, front, [cid])] -> {oid: (steps, truncated, error)}"""
     if not tasks:
         return {}
     warm_up()
+    nproc = nproc or free_cores()
     res = {}
     if len(tasks) < 40 or nproc <= 1:
         for r in _work(tasks):
@@ -652,9 +663,9 @@ def run(tier_name=None, replay=None):
     rng = random.Random(seed * 7919 + 10)
     work = os.path.join(RUN, "C10-" + t)
     cap = 10 if thorough else 6
-    max_calls = 900000 if thorough else 15000
-    sample_selfloops = 400000 if thorough else 4500
-    max_big = 3000 if thorough else 80
+    max_calls = 900000 if thorough else 12000
+    sample_selfloops = 400000 if thorough else 3600
+    max_big = 3000 if thorough else 60
     timing = {}
     # (i) the model, exhaustively
     t0 = time.time()
@@ -773,7 +784,7 @@ def run(tier_name=None, replay=None):
     obs = [{"id": o_, "pid": o_, "front": done[o_][0], "steps": done[o_][3]} for o_ in sorted(done)]
     obs_by_id = {o["id"]: o for o in obs}
     try:
-        fails, stats = judge_paths(obs, calls, work, parts=16 if thorough else 8)
+        fails, stats = judge_paths(obs, calls, work, parts=free_cores(4, 16 if thorough else 8))
     except Exception as ex:
         v.machinery_failure(str(ex)[:1500])
         return v.finish()
@@ -798,7 +809,7 @@ def run(tier_name=None, replay=None):
         "edge_targets_covered": len(targets - remaining), "edges_driven": len(traversed_real),
         "edge_coverage": round(len(traversed_real) / max(g.nedges, 1), 4),
         "edge_coverage_within_cap": round(len(traversed_real) / max(len(reach), 1), 4),
-        "exhaustive": bool(thorough and not remaining and len(reach) == g.nedges),
+        "exhaustive": bool(len(traversed_real) == g.nedges),
         "distinct_nontrivial": len(traversed_real),
         "rule": "distinct edges (model state, call with all its arguments) of the MC_Api state graph that were driven through the real "
                 "REST front end of a fresh world and judged; self-loops (refused calls, reads) count once per model state",
